@@ -23,7 +23,8 @@ Definition fr_sub (a b : N) := fr_add a (fr_opp b).
 Definition fr_inv (a : N) := pow_mod a (r_order - 2) r_order.
 Definition fr_div (a b : N) := fr_mul a (fr_inv b).
 Definition fr_of_be (b : bytes) : option N :=
-  if Nat.eqb (length b) 32 then let v := os2ip b in if v <? r_order then Some v else None else None.
+  if (Nat.eqb (length b) 32 && wf_bytesb b)%bool
+  then let v := os2ip b in if v <? r_order then Some v else None else None.
 
 Definition real_scalars : scalar_ops := {|
   F := N; f0 := 0; f1 := 1;
